@@ -62,6 +62,18 @@ def scenario(hist, entry, rng, variant=0):
         lifecycle.observe_all(hist, obj, entry, B, "RowPure", note=who + " buffer refilled in place")
         if who == "fitted" and intruder(entry, obj, variant, rng):
             lifecycle.observe_all(hist, obj, entry, P, "RowPure", note=who + " after a second estimator sharing its sub-estimators was trained")
+        # a batch in single precision goes through (its own outputs are not compared: rounding), then the same float64
+        # rows again: answering a query does not change the model
+        if isinstance(P, numpy.ndarray) and P.dtype == numpy.float64:
+            import warnings
+            for mth in entry.methods:
+                try:
+                    with warnings.catch_warnings():
+                        warnings.simplefilter("ignore")
+                        getattr(obj, mth)(P.astype(numpy.float32))
+                except Exception:
+                    pass
+            lifecycle.observe_all(hist, obj, entry, P, "RowPure", note=who + " after a float32 batch")
         # integer-valued rows handed over in an integer array (counts, pixel values): the same rows
         if isinstance(P, numpy.ndarray) and P.dtype.kind == "f" and numpy.array_equal(P, numpy.round(P)):
             lifecycle.observe_all(hist, obj, entry, P.astype(numpy.int64), "RowPure", note=who + " integer dtype batch")
